@@ -17,6 +17,7 @@ structure C where
   delayRun : Option Nat := none             -- --delay-run: a closure that sleeps INSIDE the job task before every query
   delayIds : List Nat := []                 -- delay closures sent and not yet executed
   blockedUntil : Nat := 0                   -- the job task is asleep inside a delay closure until then: it takes no turn
+  quitCount : Nat := 0                      -- quits requested so far (the action worker handles no further event once it is quitting)
 
 def queryIds (log : List (Nat × Obs)) (n : Nat) : List Nat :=
   (log.take n).reverse.filterMap (fun (_, o) => match o with | .func id _ _ => if id ≥ 2000 then some id else none | _ => none)
@@ -96,9 +97,16 @@ def onEvent (c : C) : C :=
   let q := c.nextQ
   { c with x := doSend c.x .normal [.func q] false, pendingQ := c.pendingQ ++ [q], nextQ := q + 1 }
 
+/-- a signal delivered to watchexec itself: quit (the worker then stops and deletes the job) or pass it on -/
+def onSignal (c : C) (sig : Nat) : C :=
+  match onSignals c.cfg c.quitCount [sig] with
+  | .quit m => (quitCtls m).foldl (fun c ctls => { c with x := doSend c.x .normal ctls false }) { c with quitCount := c.quitCount + 1 }
+  | .pass sigs => sigs.foldl (fun c g => { c with x := doSend c.x .normal [.signal g] false }) c
+
 def stepOp (c : C) (op : String) : List C :=
   match op.splitOn ":" with
-  | ["init"] | ["chg"] => [onEvent c]
+  | ["init"] | ["chg"] => if c.quitCount > 0 then [c] else [onEvent c]
+  | ["sig", n] => if c.quitCount > 0 then [c] else [onSignal c n.toNat!]
   | ["y"] => settleC 300 c
   | ["a", ms] => advanceC 64 (c.x.st.now + ms.toNat!) c
   | _ => [c]
@@ -144,7 +152,7 @@ def handleLine (line : String) : String :=
     let finals := ((ops.splitOn ";") ++ ["y"]).foldl (fun cs op => cs.flatMap (fun c => stepOp c op)) [init]
     let show_ (c : C) : String :=
       let entries := c.x.st.log.reverse.filterMap (fun (t, o) => match o with
-        | .func _ _ _ => none | .ticket _ => none | .ended => none
+        | .func _ _ _ => none | .ticket _ => none | .ended => (if c.quitCount > 0 then some s!"{t}:mainend" else none)
         | o => some s!"{t}:{obsStr o}")
       "|".intercalate entries
     id ++ " " ++ " ## ".intercalate ((finals.map show_).eraseDups)
